@@ -1104,11 +1104,12 @@ def soup_cases():
                                   "kwargs": st.just({}), "matrix_type": st.sampled_from(["dna", "standard"]),
                                   "ns": NS_SOUP, "opts": OPTS_ST, "src": SRC_ST})
     plain = st.fixed_dictionaries({"text": docs.plain_newick_soups(), "schema": st.just("newick"),
-                                   "kwargs": st.just({}), "matrix_type": st.none()})
+                                   "kwargs": st.just({}), "matrix_type": st.none(), "opts": OPTS_ST, "src": SRC_ST})
     plain2 = st.fixed_dictionaries({"text": docs.plain_newick_mutants(), "schema": st.just("newick"),
                                     "kwargs": st.just({}), "matrix_type": st.none()})
     link = st.fixed_dictionaries({"text": docs.nexus_link_soups(), "schema": st.just("nexus"),
-                                  "kwargs": st.just({}), "matrix_type": st.just("dna"), "ns": NS_SOUP, "opts": OPTS_ST, "src": SRC_ST})
+                                  "kwargs": st.just({}), "matrix_type": st.just("dna"), "ns": NS_SOUP,
+                                  "opts": OPTS_ST, "src": SRC_ST})
     return st.one_of(one("newick"), plain, plain2, plain2, one("nexus"), one("nexus"), stmt, stmt, stmt, stmt, stmt,
                      link, link, link, link, one("phylip"), one("fasta"))
 
